@@ -163,7 +163,7 @@ theorem any_spelling_parses (t : Ast) (ts : List Tok) (q : Nat) (h : Sp t ts q) 
 
 /-- **the spelling with the fewest parentheses is read back as the tree** (`toksM`: parentheses only
 where a weaker operator is an operand of a stronger one, or an equally strong one stands on the right) -/
-theorem minimal_spelling_parses (t : Ast) (h : WF t) : parseToks (toksM t) = .ok t := parse_min t h
+theorem minimal_spelling_parses (t : Ast) (h : WFTree t) : parseToks (toksM t) = .ok t := parse_min t h
 
 /-- a token list is a spelling of at most one tree: parentheses, precedence and left-to-right grouping
 leave no ambiguity -/
@@ -257,17 +257,17 @@ def exTree2 : Ast :=
     .op "*" [.op "^" [.op "-" [.operand .num "3", .operand .num "4"], .op "%" [.op "u-" [.operand .range "A1"]]],
       .call "SUM" [.operand .num "2", .op "&" [.operand .num "5", .operand .str "x"], .call "F" []]]]
 
-theorem exTree2_wf : WF exTree2 := by
-  refine WF.bin _ _ _ (by decide) (WF.bin _ _ _ (by decide) (WF.operand _ _) (WF.operand _ _)) (WF.bin _ _ _ (by decide) ?_ ?_)
-  · exact WF.bin _ _ _ (by decide) (WF.bin _ _ _ (by decide) (WF.operand _ _) (WF.operand _ _))
-      (WF.percent _ (WF.sign _ _ (by decide) (WF.operand _ _)))
-  · refine WF.call _ _ ?_ ?_ ?_
+theorem exTree2_wf : WFTree exTree2 := by
+  refine WFTree.bin _ _ _ (by decide) (WFTree.bin _ _ _ (by decide) (WFTree.operand _ _) (WFTree.operand _ _)) (WFTree.bin _ _ _ (by decide) ?_ ?_)
+  · exact WFTree.bin _ _ _ (by decide) (WFTree.bin _ _ _ (by decide) (WFTree.operand _ _) (WFTree.operand _ _))
+      (WFTree.percent _ (WFTree.sign _ _ (by decide) (WFTree.operand _ _)))
+  · refine WFTree.call _ _ ?_ ?_ ?_
     · intro a ha _
       simp at ha
       rcases ha with rfl | rfl | rfl
-      · exact WF.operand _ _
-      · exact WF.bin _ _ _ (by decide) (WF.operand _ _) (WF.operand _ _)
-      · exact WF.call _ _ (by intro a ha; simp at ha) (by intro a ha; simp at ha) (by intro a ha; simp at ha)
+      · exact WFTree.operand _ _
+      · exact WFTree.bin _ _ _ (by decide) (WFTree.operand _ _) (WFTree.operand _ _)
+      · exact WFTree.call _ _ (by intro a ha; simp at ha) (by intro a ha; simp at ha) (by intro a ha; simp at ha)
     · intro a ha he
       simp at ha
       rcases ha with rfl | rfl | rfl <;> simp [isEmptyArg] at he
